@@ -422,7 +422,11 @@ def polar_coordinates(
         return dist, np.arctan2(diff[..., 1], diff[..., 0])
 
     elif grid.dim == 3:
-        theta = np.arccos(diff[..., 2] / dist)
+        # avoid division by zero for points coinciding with the origin (theta = 0)
+        cos_theta = np.divide(
+            diff[..., 2], dist, out=np.ones_like(dist), where=dist > 0
+        )
+        theta = np.arccos(cos_theta)
         phi = np.arctan2(diff[..., 1], diff[..., 0])
         return dist, theta, phi
 
